@@ -8,12 +8,12 @@ import (
 	"sort"
 	"time"
 
-	math "github.com/IBM/mathlib"
 	eddsa "github.com/IBM/TSS/mpc/binance/eddsa"
 	"github.com/IBM/TSS/mpc/bls"
 	"github.com/IBM/TSS/mpc/ps"
 	"github.com/IBM/TSS/threshold"
 	tss "github.com/IBM/TSS/types"
+	math "github.com/IBM/mathlib"
 
 	"verif/internal/out"
 	"verif/internal/prng"
